@@ -1369,7 +1369,7 @@ class C14(Prop):
                 "fits is accepted and so encoded (C14_accepts_open, C14_accepts_closed); an empty interior label, a leading dot, 63 bytes "
                 "without a dot and texts over 253 bytes are errors (C14_rejects_empty_label, _leading_dot, _long_label, "
                 "_long_label_after_dot, _long_text); for letter-digit-hyphen-underscore labels the produced wire name is a name of the "
-                "parser's policy with those labels and prints back as the labels joined by dots (C14_ldh_roundtrip). Read-back through a record: on an object in pointer-free form a successful set_raw_name with the "
+                "parser's policy with those labels and prints back as the labels joined by dots (C14_ldh_roundtrip); for every text the conversion accepts (no default zone) the wire name is a name of the parser's policy with exactly the labels of the text - no control character, DEL, dot or backslash in a label (C14_accepted_text_is_policy_name; true since the repair a97c4c2 of /repo). Read-back through a record: on an object in pointer-free form a successful set_raw_name with the "
                 "wire name of non-empty labels leaves the cursor on a record whose raw name is that wire name and whose name() is the "
                 "labels joined by dots, lower-cased (C14_set_name_reads_back, C14_text_reads_back with the text conversion in front); the "
                 "read-back through RR::new + insert_rr, which takes the bytes the setter refuses, is decided by the correspondence.")
@@ -1725,6 +1725,32 @@ class HistProp(Prop):
                         bld.walk_op(si=si, mode="read", incl=True)
                     bld.walk_op(si=rng.randrange(3), mode="mixed")
                     out.append(self.finish(k0 + len(out), "P," + hx(b), bld, "requestion"))
+        return out
+
+    def query_bytes_family(self, rng, k0, tier):
+        """Synthesised queries whose name holds any byte the text-to-wire conversion may be handed (control bytes, DEL, backslash,
+        quote, space, 128, upper case): whatever gen::query returns is a packet the parser must accept and whose view is its parse
+        (C08 names synthesised packets as starting points). Added when the proof that a synthesised query is its own fresh parse
+        needed 'every label byte the conversion accepts is one the parser accepts' - which the pinned code did not give."""
+        out = []
+        odd = [b"a", b"B", b"\\", b" ", b'"', b"\x01", b"\x1f", b"\x7f", b"\x80", b"-", b"_", b"@", b"0", b"\x00", b"\t"]
+        texts = [x + b"x" for x in odd] + [b"x" + x + b".y" for x in odd] + [b"y." + x for x in odd]
+        for _ in range(60 if tier == "quick" else 3000):
+            parts = [b"".join(rng.choice(odd + [b"c", b"D", b"e"]) for _ in range(rng.choice([1, 2, 3, 8, 30, 62]))) for _ in range(rng.randint(1, 4))]
+            texts.append(b".".join(parts) + (b"." if rng.random() < 0.4 else b""))
+        for nm in texts:
+            if T.must_reject(nm) or len(nm) > 253:
+                continue
+            labels = T.expected_labels(nm, None)
+            if G.wire_len(labels) > 253 or any(len(l) > 62 for l in labels):
+                continue
+            a = H.AMsg()
+            tid = rng.randint(0, 65535)
+            a.tid, a.flags, a.q = tid, 0x0100, (labels, 28, 1)
+            bld = H.Builder(rng, a, set())
+            if rng.random() < 0.5:
+                bld.getter_op(rng.choice(["q0", "q1"]))
+            out.append(self.finish(k0 + len(out), "Q,%s,28,%d" % (hx(nm), tid), bld, "query-bytes"))
         return out
 
     def inflating_family(self, rng, k0, tier):
@@ -2183,6 +2209,7 @@ class C08(HistProp):
         cases += self.special_qtype_family(rng, len(cases))
         cases += self.requestion_family(rng, len(cases))
         cases += self.inflating_family(rng, len(cases), tier)
+        cases += self.query_bytes_family(rng, len(cases), tier)
         return cases
 
 
